@@ -172,6 +172,23 @@ func (w *world) reset(cps map[uint32]*chainhash.Hash) {
 			panic(err)
 		}
 	}
+	if _, err := w.v.Filt.FetchHeaderByHeight(1); err == nil {
+		// entries above the tip are left in the flat file (only a defective
+		// build gets here): start over with a fresh data directory
+		w.v.Close()
+		os.RemoveAll(w.dir)
+		dir, err := os.MkdirTemp("", "cfdrv")
+		if err != nil {
+			panic(err)
+		}
+		w.dir = dir
+		v, err := neutrino.NewVerifCF(dir, w.params, w.net)
+		if err != nil {
+			panic(err)
+		}
+		w.v = v
+		w.t.Hit("world.recreated-after-corruption")
+	}
 	w.v.Take()
 	epoch++
 	w.hard = nil
